@@ -193,6 +193,18 @@ def unit_HsmsGuards():
         if any(isinstance(i, ast.FunctionDef) and i.name == "_connection_closed" for i in c.body):
             hooks.append(cname)
 
+    # the server's restart hook: does it wait for the thread that accepted the closed connection before it starts a new listener?
+    scls = G.find_class(G.parse("common/tcp_server_connection.py"), "TcpServerConnection")
+    hook = next((i for i in scls.body if isinstance(i, ast.FunctionDef) and i.name == "_connection_closed"), None)
+    calls = []
+    if hook is not None:
+        for n in ast.walk(hook):
+            if isinstance(n, ast.Call):
+                d = G.P.dotted(n.func)
+                if d in ("self._server_thread.join", "self.__start_server_thread", "self._TcpServerConnection__start_server_thread"):
+                    calls.append((n.lineno, n.col_offset, "join" if d.endswith("join") else "start"))
+    hook_calls = [c[2] for c in sorted(calls)]
+
     def q(x):
         return '"' + x.replace("\\", "\\\\").replace('"', '\\"') + '"'
     out = [G.HEADER.format(src="secsgem/hsms/protocol.py (_on_state_connect), secsgem/common/tcp_*connection.py (setsockopt calls)"),
@@ -208,10 +220,12 @@ def unit_HsmsGuards():
            "def ownDisconnectedListeners : List String := [" + ", ".join(q(x) for x in regs) + "]\n",
            "/-- TCP connection classes that implement the `_connection_closed` hook -/",
            "def closedHooks : List String := [" + ", ".join(q(x) for x in hooks) + "]\n",
+           "/-- `TcpServerConnection._connection_closed`: its calls of `self._server_thread.join()` / `self.__start_server_thread()`, in source order -/",
+           "def serverRestartHook : List String := [" + ", ".join(q(x) for x in hook_calls) + "]\n",
            "end SecsModel.Gen.HsmsGuards\n"]
     G.write("HsmsGuards", "\n".join(out))
     G.FACTS["HsmsGuards"] = {"selectGuard": guards[0], "sockOpts": [list(o) for o in opts], "receiverThreadLast": last,
-                             "ownDisconnectedListeners": regs, "closedHooks": hooks}
+                             "ownDisconnectedListeners": regs, "closedHooks": hooks, "serverRestartHook": hook_calls}
 
 
 UNITS = {"RxOrder": unit_RxOrder, "HsmsGuards": unit_HsmsGuards}
